@@ -56,6 +56,8 @@ CmdOf(dir, it) == IF Has(it, "raw") THEN [cid |-> it.cid, raw |-> it.raw]
 CmdMust(dir, it) == Has(it, "raw") \/ it.p = <<>>
                     \/ (IF dir = "down" /\ it.cid = 13 THEN DurRepresentable(it.p[1].Time)
                         ELSE MustAccept(Layout(dir, it.cid), it.p[1]))
+\* an FOpts sequence longer than the 15-byte field has no encoding: it is refused (accepting it would frame it differently)
+OverlongFails(e) == IF e.err = "error" THEN <<>> ELSE <<"C07.stream", "C06.bytes">>
 StreamFails(e) ==
   LET cmds == [i \in 1..Len(e.cmds) |-> CmdOf(e.dir, e.cmds[i])]
       must == \A i \in 1..Len(e.cmds) : CmdMust(e.dir, e.cmds[i])
@@ -81,7 +83,7 @@ LookupFails(e) ==
 
 Fails(e) == CASE e.ev = "enc" -> EncFails(e)
               [] e.ev = "dec" -> DecFails(e)
-              [] e.ev = "stream" -> StreamFails(e)
+              [] e.ev = "stream" -> IF "overlong" \in DOMAIN e THEN OverlongFails(e) ELSE StreamFails(e)
               [] e.ev = "lookup" -> LookupFails(e)
               [] e.ev = "cmdtype" -> (IF e.err = "" /\ e.ty = PayloadTypeName(e.dir, e.cid) THEN <<>> ELSE <<"C06.decode", "C07.stream", "C05.recover">>)
               [] e.ev = "hang" -> <<e.prop \o ".hang">>    \* a call that never returned (recorded by the watchdog of the harness)
